@@ -1014,7 +1014,9 @@ return 1;""",
             # Explicit code exists to create object.
             # For example, NumPy intent(OUT) arguments as part of pre-call.
             # If post_call is None, the Object has already been created
-            build_format = "O"
+            # The wrapper owns a reference to a created object and
+            # hands it to the tuple; an argument is only borrowed.
+            build_format = "O" if intent_blk.object_borrowed else "N"
             vargs = fmt.py_var
             blk0 = None
         else:
@@ -1689,7 +1691,7 @@ return 1;""",
             ttt0 = self.intent_out(result_typemap, result_blk, fmt_result)
             # Add result to front of return tuple.
             build_tuples.insert(0, ttt0)
-            if ttt0.format == "O":
+            if ttt0.format in ["O", "N"]:
                 # If an object has already been created,
                 # use another variable for the result.
                 fmt.PY_result = "SHPyResult"
@@ -1713,6 +1715,9 @@ return 1;""",
                 declare_code.extend(blk0.declare)
                 post_call_code.extend(blk0.post_call)
             fmt.py_var = build_tuples[0].ctorvar
+            if blk0 is None and build_tuples[0].format == "O":
+                # Returning an argument, the caller keeps its reference.
+                append_format(post_call_code, "Py_INCREF({py_var});", fmt)
             return_code = wformat("return (PyObject *) {py_var};", fmt)
         else:
             # fmt=format for function. Do not use fmt_result here.
@@ -3644,6 +3649,7 @@ PyStmts = util.Scope(None,
     cxx_header=[], cxx_local_var=None,
     need_numpy=False,
     object_created=False,
+    object_borrowed=False,  # object_created is an argument, not a new object
     parse_format=None, parse_args=[],
     declare=[], post_parse=[], pre_call=[],
     post_call=[],
@@ -4528,6 +4534,7 @@ py_statements = [
             "\t {py_var} ? {py_var}->{PY_type_obj} : {nullptr};",
         ],
         object_created=True,
+        object_borrowed=True,
     ),
     dict(
         name="py_struct_*_out_class",
